@@ -673,6 +673,7 @@ def run_c20(ck, ctx):
         data = G.encode(pk)
         walk = chain_walk(data)
         cdps = len(walk); pht = sum((hdr_fields(h)['trig'] >> 4) & 1 for o, h, p in walk); ver = walk[0][1][0]
+        vers = {h[0] for o, h, p in walk}       # links may carry different RDH versions: the configured version applies to every header
         for delta in (-1, 0, 1):
             for keys in (['cdps'], ['triggers_pht'], ['rdh_version'], ['cdps', 'triggers_pht', 'rdh_version'], []):
                 vals = dict(cdps=max(0, cdps + delta), triggers_pht=max(0, pht + delta), rdh_version=ver + delta)
@@ -681,7 +682,7 @@ def run_c20(ck, ctx):
                 exp = set()
                 if delta and 'cdps' in keys: exp.add('E9001')
                 if delta and 'triggers_pht' in keys: exp.add('E9002')
-                if delta and 'rdh_version' in keys: exp.add('E10')
+                if 'rdh_version' in keys and vers != {vals['rdh_version']}: exp.add('E10')
                 jobs.append((si, delta, tuple(keys), toml, exp, data, ['check', 'all', 'its']))
         # chip count / order on outer-barrel lanes (stave mode)
         if any(l['kind'] != 'IB' for l in meta['links']):
@@ -778,7 +779,9 @@ CHECKS = {
                           'FastPasta.C01.conforming_words_never_ambiguous', 'FastPasta.C01.conforming_its_accepted',
                           'FastPasta.C01.conforming_stream_accepted', 'FastPasta.C01.conforming_its_step', 'FastPasta.Proto.payload_sim',
                           'FastPasta.Proto.segs_sim', 'FastPasta.Proto.data_sim', 'FastPasta.Proto.cut_payload', 'FastPasta.Proto.payload_words',
-                          'FastPasta.C01.run_ids_nodup']),
+                          'FastPasta.C01.run_ids_nodup', 'FastPasta.C01.conforming_input_clean', 'FastPasta.C03.scanLoop_benign', 'FastPasta.C01.conforming_stave_accepted',
+                          'FastPasta.C01.conforming_stave_stream_accepted', 'FastPasta.C01.conforming_input_clean_stave', 'FastPasta.C01.run_clean_of_quiet_validators',
+                          'FastPasta.Proto.spayload_sim', 'FastPasta.Proto.ssegs_sim', 'FastPasta.Proto.frameOk_checks', 'FastPasta.Proto.laneOk_verdict']),
     'C02': dict(modules=['FastPasta.Props.C02'], run=run_c02, needs_harness=False, corr='run_faulted',
                 theorems=['FastPasta.C02.rdh_sanity_fault_detected', 'FastPasta.C02.rdh_running_fault_detected', 'FastPasta.C02.sanity_mode_no_e11',
                           'FastPasta.C02.ihw_fault_detected', 'FastPasta.C02.tdh_fault_detected', 'FastPasta.C02.tdt_fault_detected',
